@@ -19,6 +19,8 @@ def main():
     ap.add_argument("--tier", default=os.environ.get("VERIF_TIER", "quick"))
     ap.add_argument("--record", action="store_true", help="record the obligations proved on this tree as expected")
     ap.add_argument("--replay", default=None)
+    ap.add_argument("--crosscheck", type=float, default=None, metavar="SECONDS",
+                    help="evaluate every contract natively on generated inputs for SECONDS each (encoding cross-check)")
     a = ap.parse_args()
     importlib.import_module("checks.table")
     if a.pid not in PROPS:
@@ -39,6 +41,9 @@ def main():
     expected = set(expected_all.get(a.pid, []))
     results = driver.run_e1(a.pid, spec.get("modules", []))
     run.add_e1(results, None if a.record else expected)
+    budget = a.crosscheck if a.crosscheck is not None else (20.0 if a.tier == "thorough" else None)
+    if budget:
+        run.crosscheck(results, budget)
     # vanished obligations are a checker error (vacuity guard)
     proved_now = {o["name"] for o in run.obligations}
     if not a.record:
